@@ -505,16 +505,23 @@ class Ctx:
             "wall_s": round(wall, 2),
             "violations": len(self.violations),
         }
-        os.makedirs(EVIDENCE, exist_ok=True)
-        tmp = os.path.join(EVIDENCE, "%s.json.tmp" % self.pid)
+        # extension checks (ids X..: behaviour beyond the listed properties)
+        # keep their evidence apart and never print property verdict lines
+        ext = self.pid.startswith("X")
+        evdir = EVIDENCE + "_ext" if ext else EVIDENCE
+        os.makedirs(evdir, exist_ok=True)
+        tmp = os.path.join(evdir, "%s.json.tmp" % self.pid)
         with open(tmp, "w") as f:
             json.dump(ev, f, indent=1, default=repr)
-        os.replace(tmp, os.path.join(EVIDENCE, "%s.json" % self.pid))
+        os.replace(tmp, os.path.join(evdir, "%s.json" % self.pid))
         for s, v in sorted(self.known_hits.items()):
-            print("KNOWN-FINDING: property=%s %s [signature %s; %d occurrence(s)]"
-                  % (self.pid, v["what"], s, v["count"]))
+            print("%s=%s %s [signature %s; %d occurrence(s)]"
+                  % ("EXT-KNOWN: ext" if ext else "KNOWN-FINDING: property",
+                     self.pid, v["what"], s, v["count"]))
         for v in self.violations:
-            print("VIOLATION property=%s replay=%s" % (self.pid, v["replay"]))
+            print("%s=%s replay=%s" % ("EXT-DEVIATION ext" if ext else
+                                       "VIOLATION property", self.pid,
+                                       v["replay"]))
             print("  what: %s (signature %s, %d occurrence(s))" %
                   (v["what"], v["signature"], v["count"]))
         print("%s %s: states=%d transitions=%d traces=%d events=%d "
@@ -532,9 +539,12 @@ def sig_match(pattern, signature):
 
 
 def load_known(pid):
-    if not os.path.exists(KNOWN):
+    path = KNOWN
+    if pid.startswith("X"):      # extension checks have their own list
+        path = os.path.join(os.path.dirname(KNOWN), "ext_known", pid + ".json")
+    if not os.path.exists(path):
         return []
-    with open(KNOWN) as f:
+    with open(path) as f:
         data = json.load(f)
     return [k for k in data.get("findings", []) if k["property"] == pid]
 
